@@ -59,6 +59,8 @@ def cases(tier):
                 for r in (range(6) if nlines == 3 else [-1]):
                     yield ("csv", nlines, opt, h, r)
     yield ("confusion",)
+    for libset in ("csv", "netcdf"):
+        yield ("paths", libset)
 
 
 RAW_SYMS = ["a", "\\", '"', "'", "n", "u", "x", "N", "0", "{", " "]
@@ -102,7 +104,12 @@ def _observe(text, libs, work):
     except Exception as exc:
         out.update(phase="raw", cls=type(exc).__name__, exc=exc)
     for f in set(os.listdir(work)) - before:
-        os.remove(os.path.join(work, f))
+        if os.path.isdir(os.path.join(work, f)):
+            import shutil
+
+            shutil.rmtree(os.path.join(work, f), ignore_errors=True)
+        else:
+            os.remove(os.path.join(work, f))
     return out
 
 
@@ -143,9 +150,11 @@ def _cli(text, libset, work, ob, viols, keybase, tag):
     return "cli-ok"
 
 
-def _run_texts(texts, libset, viols, outcomes, keybase, files=None, cli=True):
+def _run_texts(texts, libset, viols, outcomes, keybase, files=None, cli=True, absdir=False):
     libs = CSV if libset == "csv" else NETCDF
     work = c12._setup_dir(libset)
+    if absdir:
+        texts = [(label, text.replace("ABSDIR", work)) for label, text in texts]
     seen = set()
     n = 0
     sample = None
@@ -296,6 +305,34 @@ def run(case):
         n, distinct, sample = _run_texts(texts, "csv", viols, outcomes, "csv-content", files=lambda label: {"data.csv": label}, cli=(nlines <= 2))
         if sample:
             sample = {"csv_content": sample["label"], "model": text}
+    elif case[0] == "paths":
+        # the state of the FILE SYSTEM as the source of failure: output into a missing folder, below a regular file, onto a directory;
+        # input from a directory, from below a regular file; relative and absolute.  Whatever happens is an MPilot error, reported by the CLI
+        libset = case[1]
+        b = lambda s: ("bare", s)
+        q = lambda s: ("q", s)
+        pre = c12._prefix(libset)
+        data = "input.csv" if libset == "csv" else "input.nc"
+        outs = ["out.dat", "nodir/out.dat", "nodir/deeper/out.dat", data + "/out.dat", data + "/run1/out.dat", ".", "..", "./"]  # (not the data file itself: that run would destroy its own input)
+        ins = [".", data + "/x", "nodir/" + data, "..", "nodir"]
+        models = []
+        for o in outs:
+            for form in ("rel", "abs"):
+                path = o if form == "rel" else "ABSDIR/" + o
+                wargs = [("OutFileName", q(path)), ("OutFieldNames", ("list", [b("A")]))]
+                if libset == "netcdf":
+                    wargs += [("DimensionFileName", q("input.nc")), ("DimensionFieldName", b("A"))]
+                models.append(("write %s" % path, pre + [("W2", "EEMSWrite", wargs)]))
+                models.append(("print %s" % path, pre + [("P2", "PrintVars", [("InFieldNames", ("list", [b("A")])), ("OutFileName", q(path))])]))
+        for i in ins:
+            for form in ("rel", "abs"):
+                path = i if form == "rel" else "ABSDIR/" + i
+                models.append(("read %s" % path, pre + [("R2", "EEMSRead", [("InFileName", q(path)), ("InFieldName", b("A"))])]))
+                if libset == "netcdf":
+                    models.append(("dimension file %s" % path, pre + [("W3", "EEMSWrite", [("OutFileName", q("o.nc")), ("OutFieldNames", ("list", [b("A")])),
+                                                                                          ("DimensionFileName", q(path)), ("DimensionFieldName", b("A"))])]))
+        texts = [(label, G.render(G.items_of(m))[0]) for label, m in models]
+        n, distinct, sample = _run_texts(texts, libset, viols, outcomes, "paths", absdir=True)
     else:
         b = lambda s: ("bare", s)
         pre = c12._prefix("csv")
